@@ -14,6 +14,7 @@ import Mathlib.Tactic.LinearCombination
 import Mathlib.Tactic.Linarith
 import Mathlib.Tactic.NormNum
 import Mathlib.Analysis.Real.Sqrt
+import SpatialId.Lemmas.F64Order
 namespace SpatialId.C20Vec
 open SpatialId.Vec
 
@@ -253,5 +254,67 @@ theorem fallback_axis (s : V3 ℝ) (hs : s.dot s ≠ 0) (hz : s.cross ⟨0, 0, 1
   nlinarith [mul_self_nonneg c]
 
 end real
+
+/-! ### `MaxPoint` / `MinPoint` on binary64: an element of the list whose projection bounds all others -/
+section maxpoint
+open SpatialId.F64 SpatialId.Vec.Dy
+
+/-- state of the fold of `maxPoint`: the best point so far is a listed point, carries its own projection, and bounds the
+projections of every point seen so far -/
+theorem maxFold_inv (vec : V3 F64.Dy) (all : List (V3 F64.Dy)) : ∀ (l seen : List (V3 F64.Dy)) (acc : V3 F64.Dy × F64.Dy),
+    acc.1 ∈ all → acc.2 = acc.1.dot vec → (∀ p ∈ seen, val (p.dot vec) ≤ val acc.2) → (∀ p ∈ l, p ∈ all) →
+    let r := l.foldl (fun (acc : V3 F64.Dy × F64.Dy) p => let v := p.dot vec; if F64.lt acc.2 v then (p, v) else acc) acc
+    r.1 ∈ all ∧ r.2 = r.1.dot vec ∧ ∀ p ∈ seen ++ l, val (p.dot vec) ≤ val r.2 := by
+  intro l
+  induction l with
+  | nil => intro seen acc h1 h2 h3 _; simpa using ⟨h1, h2, h3⟩
+  | cons q l ih =>
+    intro seen acc h1 h2 h3 h4
+    simp only [List.foldl_cons]
+    by_cases hlt : F64.lt acc.2 (q.dot vec) = true
+    · simp only [hlt, if_true]
+      have hv := (lt_iff_val _ _).mp hlt
+      have := ih (seen ++ [q]) (q, q.dot vec) (h4 q List.mem_cons_self) rfl
+        (by
+          intro p hp
+          rcases List.mem_append.mp hp with hp | hp
+          · exact le_trans (h3 p hp) (le_of_lt hv)
+          · rw [List.mem_singleton] at hp; subst hp; exact le_refl _)
+        (fun p hp => h4 p (List.mem_cons_of_mem _ hp))
+      simpa [List.append_assoc] using this
+    · have hf : F64.lt acc.2 (q.dot vec) = false := by cases h : F64.lt acc.2 (q.dot vec) <;> simp_all
+      simp only [hf, Bool.false_eq_true, if_false]
+      have hv : val (q.dot vec) ≤ val acc.2 := by
+        by_contra hc
+        exact hlt ((lt_iff_val _ _).mpr (not_le.mp hc))
+      have := ih (seen ++ [q]) acc h1 h2
+        (by
+          intro p hp
+          rcases List.mem_append.mp hp with hp | hp
+          · exact h3 p hp
+          · rw [List.mem_singleton] at hp; subst hp; exact hv)
+        (fun p hp => h4 p (List.mem_cons_of_mem _ hp))
+      simpa [List.append_assoc] using this
+
+/-- **maxPoint_spec**: `MaxPoint` rejects exactly the empty list, and otherwise returns a listed point whose projection on
+`vec` (as computed in binary64) is at least that of every listed point -/
+theorem maxPoint_spec (pts : List (V3 F64.Dy)) (vec : V3 F64.Dy) :
+    (maxPoint pts vec = none ↔ pts = []) ∧
+    ∀ r, maxPoint pts vec = some r → r ∈ pts ∧ ∀ p ∈ pts, val (p.dot vec) ≤ val (r.dot vec) := by
+  cases pts with
+  | nil => simp [maxPoint]
+  | cons p0 rest =>
+    refine ⟨by simp [maxPoint], ?_⟩
+    intro r hr
+    simp only [maxPoint, Option.some.injEq] at hr
+    have := maxFold_inv vec (p0 :: rest) (p0 :: rest) [] (p0, p0.dot vec) List.mem_cons_self rfl (by simp) (fun p hp => hp)
+    simp only [List.nil_append] at this
+    obtain ⟨h1, h2, h3⟩ := this
+    rw [hr] at h1 h2
+    refine ⟨h1, fun p hp => ?_⟩
+    have := h3 p hp
+    rwa [h2] at this
+
+end maxpoint
 
 end SpatialId.C20Vec
